@@ -3,6 +3,7 @@
 package v
 
 import (
+	"unsafe"
 	"encoding/json"
 	"fmt"
 	"os"
@@ -237,3 +238,17 @@ func RunReplay(t T, harnesses map[string]func()) {
 		t.Fatalf("%d replay(s) failed", bad)
 	}
 }
+
+func addr(a []byte) uintptr { return uintptr(unsafe.Pointer(unsafe.SliceData(a))) }
+
+func Overlaps(a, b []byte) bool {
+	if len(a) == 0 || len(b) == 0 {
+		return false
+	}
+	return addr(a) < addr(b)+uintptr(len(b)) && addr(b) < addr(a)+uintptr(len(a))
+}
+
+func Follows(a, b []byte) bool {
+	return a != nil && b != nil && (len(b) == 0 || addr(a)+uintptr(len(a)) == addr(b))
+}
+func SameStart(a, b []byte) bool { return a != nil && b != nil && addr(a) == addr(b) }
